@@ -105,7 +105,7 @@ def showCk (r : Option (List Out)) : String :=
 
 /-- `NameTableSound stdTable` on the primitives / variables the requests can mention. -/
 def soundCheck : Bool :=
-  ((List.range 40).all fun p =>
+  ((List.range 80).all fun p =>
     match stdTable.nameOfPrim p with
     | some n => stdTable.builtIn n == some p
     | none => true) &&
